@@ -115,6 +115,10 @@ func (sc *seqChunker) createChunk(ctx context.Context, tree mkvs.Tree, offset no
 	// Determine the next offset (not included in proof).
 	if it.Valid() {
 		it.Next()
+		// A failed read must not be mistaken for the end of the tree.
+		if err = it.Err(); err != nil {
+			return hash.Hash{}, nil, fmt.Errorf("failed to iterate: %w", err)
+		}
 		nextOffset = it.Key()
 	}
 
